@@ -92,6 +92,11 @@ def scenarios(root):
     jobdoc("jobdoc-big-to-small", {"x": 1, "big": BIG}, {"x": 1}, lambda job: job.doc.__delitem__("big"))
     jobdoc("jobdoc-reset", {"x": 1, "y": 2}, {"z": {"n": 3}}, lambda job: setattr(job, "doc", {"z": {"n": 3}}))
     jobdoc("jobdoc-clear", {"x": 1}, {}, lambda job: job.doc.clear())
+    # the same through Job.clear() / Job.reset() on a handle that has not touched its document yet
+    jobdoc("job-clear-fresh-handle", {"x": 1, "y": [1, 2]}, {}, lambda job: job.clear())
+    jobdoc("job-reset-fresh-handle", {"x": 1}, {}, lambda job: job.reset())
+    jobdoc("jobdoc-update-call", {"x": 1}, {"x": 2, "z": {"k": 1}}, lambda job: job.document.update({"x": 2, "z": {"k": 1}}))
+    jobdoc("jobdoc-first-access-assignment", {"x": 1}, {"w": 0}, lambda job: setattr(job, "document", {"w": 0}))
 
     def setup_p(tpl):
         _mk(tpl, pdoc={"p": 1})
@@ -111,6 +116,15 @@ def scenarios(root):
     S["projectdoc-update"] = dict(setup=setup_p, writer=writer_p, reader=reader_p,
                                   targets=[(PDOC, "json", {"p": 1}, {"p": 1, "q": "v" * 300})],
                                   reader_accepts=[{"p": 1}, {"p": 1, "q": "v" * 300}])
+
+    def writer_p2(ctx):
+        p = signac.Project(root)
+        C.mark("BEGIN")
+        p.document = {"r": [1, 2]}
+        C.mark("END")
+    S["projectdoc-first-access-assignment"] = dict(setup=setup_p, writer=writer_p2, reader=reader_p,
+                                                   targets=[(PDOC, "json", {"p": 1}, {"r": [1, 2]})],
+                                                   reader_accepts=[{"p": 1}, {"r": [1, 2]}])
 
     def setup_b(tpl):
         _mk(tpl, jobs=(SP1, SP2), docs={json.dumps(SP1): {"x": 0}})
@@ -165,8 +179,9 @@ def scenarios(root):
     return S
 
 
-QUICK = ["jobdoc-absent-to-small", "jobdoc-small-to-big", "jobdoc-reset", "projectdoc-update", "buffered-flush-two-docs",
-         "cache-growing", "cache-shrinking", "cache-unchanged"]
+QUICK = ["jobdoc-absent-to-small", "jobdoc-small-to-big", "jobdoc-reset", "job-clear-fresh-handle", "projectdoc-update",
+         "projectdoc-first-access-assignment", "buffered-flush-two-docs", "cache-first-write", "cache-growing", "cache-shrinking",
+         "cache-unchanged"]
 
 
 # ------------------------------------------------------------------ oracle
